@@ -5006,7 +5006,7 @@ class CIMProperty(_CIMComparisonMixin, SlottedPickleMixin):
                             array_xml.append(_cim_xml.VALUE(None))
                     elif self.embedded_object is not None:
                         assert isinstance(v, (CIMInstance, CIMClass))
-                        array_xml.append(_cim_xml.VALUE(v.tocimxml().toxml()))
+                        array_xml.append(_cim_xml.VALUE(_embedded_object_xml(v)))
                     else:
                         array_xml.append(_cim_xml.VALUE(atomic_to_cim_xml(v)))
                 value_xml = _cim_xml.VALUE_ARRAY(array_xml)
@@ -5043,7 +5043,7 @@ class CIMProperty(_CIMComparisonMixin, SlottedPickleMixin):
             else:
                 if self.embedded_object is not None:
                     assert isinstance(self.value, (CIMInstance, CIMClass))
-                    value_xml = _cim_xml.VALUE(self.value.tocimxml().toxml())
+                    value_xml = _cim_xml.VALUE(_embedded_object_xml(self.value))
                 else:
                     value_xml = _cim_xml.VALUE(atomic_to_cim_xml(self.value))
 
@@ -6326,7 +6326,7 @@ class CIMParameter(_CIMComparisonMixin, SlottedPickleMixin):
                                 array_xml.append(_cim_xml.VALUE(None))
                         elif self.embedded_object is not None:
                             array_xml.append(
-                                _cim_xml.VALUE(v.tocimxml().toxml()))
+                                _cim_xml.VALUE(_embedded_object_xml(v)))
                         else:
                             array_xml.append(
                                 _cim_xml.VALUE(atomic_to_cim_xml(v)))
@@ -6337,7 +6337,7 @@ class CIMParameter(_CIMComparisonMixin, SlottedPickleMixin):
                 if self.type == 'reference':
                     value_xml = _cim_xml.VALUE_REFERENCE(self.value.tocimxml())
                 elif self.embedded_object is not None:
-                    value_xml = _cim_xml.VALUE(self.value.tocimxml().toxml())
+                    value_xml = _cim_xml.VALUE(_embedded_object_xml(self.value))
                 else:
                     value_xml = _cim_xml.VALUE(atomic_to_cim_xml(self.value))
 
@@ -7782,6 +7782,18 @@ class CIMQualifierDeclaration(_CIMComparisonMixin, SlottedPickleMixin):
         mof.append(';\n')
 
         return ''.join(mof)
+
+
+def _embedded_object_xml(obj):
+    """
+    Return the CIM-XML string for an embedded object (CIMInstance or CIMClass).
+
+    An embedded object is represented as an INSTANCE or CLASS element; any
+    path the object may have cannot be represented and is ignored.
+    """
+    if isinstance(obj, CIMInstance):
+        return obj.tocimxml(ignore_path=True).toxml()
+    return obj.tocimxml().toxml()
 
 
 def tocimxml(value):
